@@ -67,6 +67,7 @@ def _menus():
             m["wide_declared"] = ("MetaData(ds, {'metadata_type': 'add_method_type_info', 'type_string': 'xAOD::Jet', 'method_name': 'nTrk', 'return_type': 'unsigned int'})"
                                   ".Select(lambda e: e.Jets('A').Select(lambda j: j.nTrk() * 4000000000))", "any")
             m["wide_literal"] = ("ds.Select(lambda e: e.Jets('A').Select(lambda j: j.pt() + 3000000000))", "any")
+            m["getattr_ok"] = ("ds.Select(lambda e: e.Jets('A').Select(lambda j: j.getAttributeFloat('emf')))", True)
             m["getattr_fail"] = ("ds.Select(lambda e: e.Jets('A').Select(lambda j: j.getAttribute('x')))", False)
             m["jobscript"] = ("MetaData(ds, {'metadata_type': 'add_job_script', 'name': 'blk', 'script': ['# hello'], 'depends_on': []})" + body, True)
             m["coll_override"] = ("MetaData(ds, {'metadata_type': 'add_atlas_event_collection_info', 'name': 'Jets', 'include_files': ['x/Y.h'], "
